@@ -2,5 +2,6 @@
 REGISTRY = {
     "C15": {"harnesses": ["harness.h15"], "level": "other"},
     "C02": {"harnesses": ["harness.h02"], "level": "other"},
+    "C09": {"harnesses": ["harness.h09"], "level": "other"},
     "C10": {"harnesses": ["harness.h10"], "level": "other"},
 }
